@@ -319,6 +319,8 @@ async fn acquire_authority_lock_with_recovery(
 
                 match crate::read_authority_lock_record(data_dir) {
                     Ok(Some(lock)) => {
+                        #[cfg(rip_verif)]
+                        rip_kernel::verif::point("auth.loop.after_read_lock", "");
                         lock_invalid_since = None;
                         if lock.workspace_root != workspace_root_str {
                             return Err(format!(
@@ -372,6 +374,8 @@ async fn acquire_authority_lock_with_recovery(
                     }
                 }
 
+                #[cfg(rip_verif)]
+                rip_kernel::verif::point("auth.loop.before_sleep", "");
                 tokio::time::sleep(std::time::Duration::from_millis(20)).await;
             }
         }
